@@ -479,3 +479,61 @@ func vRawURL(c rune) bool {
 //@   requires writer != nil && t.Unit != "" && forall(i, 0, len(t.Unit), t.Unit[i] != 0)
 //@   call WriteString#2 assert arg1 == "\\45 " && t.Unit[0] == 'E'
 //@   call WriteString#3 assert arg1 == "\\65 " && t.Unit[0] == 'e'
+
+// ---------------------------------------------------------------------------
+// the separator table (CSS Syntax 3 §9 Serialization): pairs of adjacent tokens that
+// would fuse when written next to each other. The serializer may insert more separators
+// than the table asks for, never fewer.
+
+// vFuses is the §9 table over the type names serializeTo uses.
+func vFuses(a, b string) bool {
+	in := func(x string, xs ...string) bool {
+		for _, y := range xs {
+			if x == y {
+				return true
+			}
+		}
+		return false
+	}
+	switch a {
+	case "ident":
+		return in(b, "ident", "function", "url", "-", "number", "percentage", "dimension", "-->", "() block")
+	case "at-keyword", "hash", "dimension":
+		return in(b, "ident", "function", "url", "-", "number", "percentage", "dimension", "-->")
+	case "#", "-":
+		return in(b, "ident", "function", "url", "-", "number", "percentage", "dimension")
+	case "number":
+		return in(b, "ident", "function", "url", "number", "percentage", "dimension", "%")
+	case "@":
+		return in(b, "ident", "function", "url", "-")
+	case ".", "+":
+		return in(b, "number", "percentage", "dimension")
+	case "/":
+		return b == "*"
+	}
+	return false
+}
+
+// vBadPairsCoverTable enumerates every pair of serialization type names (finite) and
+// checks that badPairs contains every fusing pair. Exhaustive over a finite domain.
+func vBadPairsCoverTable() (int, []string) {
+	names := []string{
+		"ident", "at-keyword", "hash", "dimension", "#", "-", "number", "@", ".", "+", "/", "*", "%", "-->",
+		"function", "url", "percentage", "unicode-range", "() block", "[] block", "{} block", "string",
+		"whitespace", "comment", "error", "=", "|", "$", "^", "~", "?", ":", ";", ",", "<!--",
+	}
+	n := 0
+	var fails []string
+	for _, a := range names {
+		for _, b := range names {
+			n++
+			if vFuses(a, b) && !badPairs[[2]string{a, b}] {
+				fails = append(fails, a+"|"+b)
+			}
+		}
+	}
+	return n, fails
+}
+
+//@ bounded vBadPairsCoverTable all 35x35 pairs of serialization type names against the CSS Syntax 3 §9 table
+//@   props C20
